@@ -56,8 +56,6 @@ func VerifH_writeAll() {
 	}
 }
 
-type vfFlushSink struct{ vfSink }
-
 // VerifH_grpc_recv (C08, C06, C09): one gRPC frame with a symbolic flag and a symbolic 32-bit
 // length, a symbolic receive limit, optional (fake) decompression to an arbitrary length.
 func VerifH_grpc_recv() {
